@@ -215,7 +215,7 @@ fn print_xml(
 		),
 		(IdentifierAndExpression { identifier }, _) => Box::new(
 			once(format!(
-				"<IdentifierAndExpression src={:?} />",
+				"<IdentifierAndExpression src={:?}>",
 				get_source(identifier)
 			))
 			.chain(print_prev(i - 1))
